@@ -279,10 +279,22 @@ type ProcRec struct {
 }
 
 // classProgram builds a multi-line program of the given outcome class with the fault at line `at` (1..3 of 4 statements).
-func classProgram(class string, at int) (src string, wantOut string) {
+var classFaults = map[string][]string{
+	"lexerr": {"@", "\"abc", "/* open", "1 $ 2;"},
+	"synerr": {"PRINT ;", "{", "1 +", ")", "VAR 1 = 2;", "{ PRINT 1;"},
+	"rterr":  {"PRINT 1 / 0;", "zz;", "BREAK;", "nil();"},
+	"clean":  {""},
+}
+
+func classProgram(class string, at int, flavour ...int) (src string, wantOut string) {
 	pr := keywordSpelling["print"]
 	lines := []string{pr + " \"one\";", pr + " \"two\";", pr + " \"three\";"}
-	fault := map[string]string{"lexerr": "@", "synerr": pr + " ;", "rterr": pr + " 1 / 0;"}[class]
+	fl := 0
+	if len(flavour) > 0 {
+		fl = flavour[0]
+	}
+	fs := classFaults[class]
+	fault := strings.NewReplacer("PRINT", pr, "VAR", keywordSpelling["var"], "BREAK", keywordSpelling["break"]).Replace(fs[fl%len(fs)])
 	var out []string
 	var src2 []string
 	for i, l := range lines {
@@ -359,8 +371,11 @@ func checkC19(c *Ctx) {
 				invs = []inv{{[]string{"missing.bn"}, "", ""}, {[]string{"dir.bn"}, "", ""}, {[]string{"ok.bn/x.bn"}, "", ""}, {[]string{"sub/none.bn"}, "", ""}}
 			default:
 				for at := 1; at <= 4; at++ {
-					src, want := classProgram(rec.Class, at)
-					for _, nm := range []string{"p.bn", ".bn", "sub/q.bn", "sp ace.bn", "x.y.bn"} {
+					for fl, nm := range []string{"p.bn", ".bn", "sub/q.bn", "sp ace.bn", "x.y.bn", "p2.bn"} {
+						src, want := classProgram(rec.Class, at, fl)
+						if strings.Contains(src, "{") && at < 4 {
+							continue // an unclosed block swallows the following lines: only as the last line
+						}
 						os.WriteFile(filepath.Join(dir, nm), []byte(src), 0644)
 						invs = append(invs, inv{[]string{nm}, want, "ignored input\n"})
 						cmd := c.runCLIIn(dir, []string{nm}, "ignored input\n", 10*time.Second)
